@@ -214,6 +214,30 @@ func genC18(o *Out, rng *rand.Rand, tier string) {
 			writeOne(p, &net.UDPAddr{IP: randIPx(), Port: pick(rng, 68, 0, 65535)}, &net.UDPAddr{IP: randIPx().To4(), Port: pick(rng, 67, 65535, 0)}, "boundary-length")
 		}
 	}
+	// sums that carry again and again: payloads of all ones at every length, between endpoints that are all ones,
+	// all zeroes or ordinary; and datagrams far larger than an Ethernet frame (the sum exceeds 16, 24, 32 bits)
+	step := 7
+	if tier == "thorough" {
+		step = 1
+	}
+	ends := [][2]*net.UDPAddr{{{IP: net.IPv4zero, Port: 68}, {IP: net.IPv4bcast, Port: 67}}, {{IP: net.IPv4(10, 0, 0, 1), Port: 68}, {IP: net.IPv4(10, 0, 0, 2).To4(), Port: 67}},
+		{{IP: net.IPv4bcast, Port: 65535}, {IP: net.IPv4bcast, Port: 65535}}}
+	ones := func(n int) []byte {
+		p := make([]byte, n)
+		for i := range p {
+			p[i] = 0xff
+		}
+		return p
+	}
+	for L := 65; L <= 1500; L += step {
+		e := ends[(L/step)%3]
+		writeOne(ones(L), e[0], e[1], "carry-stress")
+	}
+	for _, L := range []int{298, 299, 300, 301, 302, 2048, 4096, 9000} {
+		for _, e := range ends {
+			writeOne(ones(L), e[0], e[1], "carry-stress")
+		}
+	}
 	// the 1-in-65536 payloads whose UDP checksum computes to zero (RFC 768 substitution)
 	for hi := 0; hi < 256; hi++ {
 		for lo := 0; lo < 256; lo += 1 {
